@@ -352,3 +352,9 @@ func (c *Conn) Dump(table string) (Rows, error) {
 	}
 	return r.Sorted(), nil
 }
+
+func timeUnix(y, mo, d, h, mi, s int) int64 {
+	return time.Date(y, time.Month(mo), d, h, mi, s, 0, time.UTC).Unix()
+}
+
+func nowNanos() int64 { return time.Now().UnixNano() }
